@@ -30,6 +30,16 @@ Oracle (libxml2 decides lexical validity; python-pptx is not consulted):
                process and backwards in another, and the two verdict maps must be identical. The parent
                process never exercises the library itself; replays also run in forked children.
 
+* rejects-valid => a value inside the class's OWN enforced range (numeric constants of its most derived
+               validate()) whose reference lexical form is valid for ALL its XSD types may not be rejected
+               (differential against nothing but the schema and the class's own constants);
+* hang      => every evaluation runs in a forked child that publishes the case it is about to evaluate in a
+               shared mmap; the parent is a watchdog: more than 3 s of CPU (or 20 s wall) inside ONE
+               evaluation, or a child older than 60 s (quick) / 600 s (thorough), gets the child SIGKILLed,
+               the case reported as `C11|hang|*|<Class>|<python type | read:<lexical alternative>>`, and the job
+               re-run with that python type / alternative skipped for that class (cases counted as
+               not_evaluated, run no longer `exhaustive`). replay() re-runs the single case under the same limits.
+
 Signatures (the last field names the failure, not the witness value, so that one root cause gives one
 signature in both tiers; the first witness in alphabet order and the other failing values are in `what`)
     C11|<rule>|*|<class>|<key>              class-level: fails for every XSD type the class is used with
@@ -37,7 +47,8 @@ signature in both tiers; the first witness in alphabet order and the other faili
                                             of that XSD type (the affected tag@attr are listed in `what`)
     C11|enum-unreadable|<Enum>|<token>      schema enumeration token the library enum cannot read
 (for the read-back of an enum <class> is Enum.MEMBER: a different member failing is a different signature)
-rule in accepted-invalid, readback, reject-type, reject-mutated, unreadable, read-differs, history; <key> is "->'<written form>'"
+rule in accepted-invalid, readback, reject-type, reject-mutated, unreadable, read-differs, history,
+rejects-valid (<key> = the value), hang; <key> is "->'<written form>'"
 (accepted-invalid; readback of enums), "str", "number", "<py type>-><exception>" (reject-type) or the lexical
 alternative that cannot be read (integer, percent, percent-decimal, measure-<unit>, boolean-word, double, hex,
 empty, token, or a literal enumeration token). An attribute-level failure whose (rule, class, key) is already
@@ -105,6 +116,10 @@ ASSUMPTIONS = [
     "of a percent ('90%' == '90000'), chart percentages are whole percents ('150%' == '150'), 1 in = 914400 EMU, "
     "1 pt = 12700, 1 cm = 360000, 1 mm = 36000, 1 pc = 1 pi = 152400; applied only where libxml2 accepts both forms "
     "for all candidate XSD types of the attribute",
+    "hang = more than 3 s CPU (or 20 s wall) inside a single evaluation, measured by the parent from /proc/<pid>/stat; "
+    "a normal evaluation takes well under a millisecond",
+    "rejects-valid uses the numeric constants of the class's own validate() as its documented range (discovery through "
+    "co_consts; classes without two such constants, e.g. those delegating to another class, are not covered)",
     "history check is per simple-type class (two pristine forked processes, forward and backward alphabet walk); "
     "attribute-level history and cross-class history are not explored",
 ]
